@@ -100,9 +100,12 @@ Definition is_empty (v : value) : bool :=
   | VOther _ => false
   end.
 
-(* "equal model" identifies nil and empty slices / maps ([]byte included); nothing else *)
+(* "equal model" is Go equality of the fields: nil and empty slices / maps ([]byte included)
+   are identified, and so are -0.0 and +0.0 (Go's == on floats; NaNs are compared by bits) *)
 Definition canon (v : value) : value :=
   match v with
+  | VF32 2147483648 => VF32 0
+  | VF64 9223372036854775808 => VF64 0
   | VBytes SEmpty b => VBytes SNil b
   | VCx CSlice SEmpty t => VCx CSlice SNil t
   | VCx CMap SEmpty t => VCx CMap SNil t
@@ -120,6 +123,7 @@ Inductive err :=
 | EType (r : role)     (* <meta> field must be a time.Time / string *)
 | EZero (r : role)     (* <meta> field must be a non-zero time.Time *)
 | EUnsupported  (* unsupported value type *)
+| EEmpty        (* profile: every field was skipped; the server rejects an empty KeyValues list *)
 | ECodec        (* gob / msgpack encode or decode error *)
 | EPanic.       (* reflect panic in the decoder (SetString / Set on a field of another type) *)
 
@@ -483,11 +487,14 @@ Section Codec.
     is_empty (f_val f) && (has_part tag_deletable f || has_part tag_omitempty f).
 
   Definition enc_profile (msgp : bool) (m : list field) : res (list (str * kvlog)) :=
-    res_map (fun f => match conv_field msgp (f_val f) with
-                      | Err e => Err e
-                      | Ok l => Ok (f_name f, (SnKey, PStr (f_name f)) :: l)
-                      end)
-            (filter (fun f => negb (prof_skipped f)) m).
+    match res_map (fun f => match conv_field msgp (f_val f) with
+                            | Err e => Err e
+                            | Ok l => Ok (f_name f, (SnKey, PStr (f_name f)) :: l)
+                            end)
+                  (filter (fun f => negb (prof_skipped f)) m) with
+    | Ok [] => Err EEmpty
+    | x => x
+    end.
 
   Fixpoint assoc_str {A} (n : str) (l : list (str * A)) : option A :=
     match l with
